@@ -155,6 +155,8 @@ pub struct ExecOut {
     /// how many were received before `stats_after` was taken
     pub received_before_stats: usize,
     pub chan: verif_chan::EvLog,
+    /// fault: the consumer of results went away (its receiver was dropped) while dispatching was in progress
+    pub consumer_gone: bool,
 }
 
 pub struct ExecPlan {
@@ -167,6 +169,9 @@ pub struct ExecPlan {
     pub stats_calls: usize,
     /// how many results to wait for before taking the final stats (None = do not wait: drop and drain)
     pub wait_for: Option<Arc<dyn Fn(&[Vec<bool>]) -> usize + Send + Sync>>,
+    /// fault: the consumer of results goes away — the result receiver is dropped by dispatcher 0 after it has
+    /// handed over this many of its frames (0 = before the first one)
+    pub consumer_gone_after: Option<usize>,
 }
 
 /// The body of one scheduled execution.
@@ -176,9 +181,22 @@ pub fn exec(plan: &ExecPlan) -> Result<ExecOut, String> {
     verif_chan::reset_ids();
     let (pool, recv) = make_pool(&plan.cfg)?;
     let mut hs = vec![];
-    for frames in plan.dispatchers.iter().cloned() {
+    let mut recv = Some(recv);
+    for (di, frames) in plan.dispatchers.iter().cloned().enumerate() {
         let p = pool.clone();
-        hs.push(thread::spawn(move || frames.into_iter().map(|f| p.dispatch(f)).collect::<Vec<bool>>()));
+        let mut doomed = if di == 0 && plan.consumer_gone_after.is_some() { recv.take() } else { None };
+        let gone_at = plan.consumer_gone_after.unwrap_or(usize::MAX);
+        hs.push(thread::spawn(move || {
+            let mut v = vec![];
+            for (i, f) in frames.into_iter().enumerate() {
+                if i == gone_at {
+                    drop(doomed.take());
+                }
+                v.push(p.dispatch(f));
+            }
+            drop(doomed.take());
+            v
+        }));
     }
     let stats_h = if plan.stats_calls > 0 {
         let p = pool.clone();
@@ -201,6 +219,17 @@ pub fn exec(plan: &ExecPlan) -> Result<ExecOut, String> {
     if let Some(h) = stats_h {
         out.stats_during = h.join().map_err(|_| "stats thread panicked".to_string())?;
     }
+    let recv = match recv {
+        Some(r) => r,
+        None => {
+            // nobody receives: only the counters can be compared with the outcomes
+            out.consumer_gone = true;
+            out.stats_after = pool.stats();
+            drop(pool);
+            out.chan = verif_chan::evlog_snapshot();
+            return Ok(out);
+        }
+    };
     if let Some(w) = &plan.wait_for {
         let n = w(&out.outcomes);
         while out.results.len() < n {
